@@ -116,6 +116,7 @@ def run_pool(ctx, module, prop):
         if not ctx.acc.violations:
             raise RuntimeError(f"{n} replay divergences and no violation found: the code under test is not a function of the schedule (address-ordered set?); "
                                "the exploration cannot be called exhaustive")
+        ctx.notes["nondeterministic_code"] = True
         print(f"NOTE: {n} branches could not be replayed deterministically (the code under test depends on something outside the schedule, "
               "e.g. the iteration order of a set of Task objects); violations below come from the executions that could be completed")
         ctx.caps.append(f"{n} replay divergences: branches skipped")
@@ -191,6 +192,9 @@ def replay_pool(case, prop):
         realtier.trace_batch(acc, [(sc, list(case["choices"]))])
         return acc.violations
 
+    import copy
+
+    case = copy.deepcopy(case)  # never mutate the recorded case (it is written to the replay file afterwards)
     sc = case["sc"]
     sc = dict(sc, ops=[tuple(o) for o in sc["ops"]], tasks=[dict(t, codes=tuple(t.get("codes", (0,))), extra_deps=tuple(t.get("extra_deps", ()))) if True else t for t in sc["tasks"]])
     if "start_fail" in sc:
